@@ -147,6 +147,20 @@ func runC14(c *Collector, r *Rng, thorough bool) {
 					if lx, ly := coordLen(b2, -2), coordLen(b2, -3); lx != size || ly != size {
 						c.Fail("C14/coordinate-width", fmt.Sprintf("key built from %d/%d-byte coordinates is serialised with x/y of %d/%d bytes, field size is %d: %x", len(xb), len(yb), lx, ly, size, b2), rep)
 					}
+					// the same key held in memory with its curve (and key type) under other Go integer types, as
+					// ParamInt / the accessors admit: same serialisation
+					for _, crvSp := range []any{int64(k2.Params[cose.KeyLabelEC2Curve].(cose.Curve)), int(k2.Params[cose.KeyLabelEC2Curve].(cose.Curve)), int8(k2.Params[cose.KeyLabelEC2Curve].(cose.Curve))} {
+						k3 := &cose.Key{Type: k2.Type, Algorithm: k2.Algorithm, Params: map[any]any{}}
+						for kk, vv := range k2.Params {
+							k3.Params[kk] = vv
+						}
+						k3.Params[cose.KeyLabelEC2Curve] = crvSp
+						b3, err := k3.MarshalCBOR()
+						c.Eval("marshal-trimmed/curve-spelled/"+class, fmt.Sprintf("%T", crvSp), true)
+						if _, perr := k3.PublicKey(); perr == nil && (err != nil || !bytes.Equal(b3, b2)) {
+							c.Fail("C14/coordinate-width", fmt.Sprintf("the key with its curve held as %T is usable (PublicKey() succeeds) but serialises to %x (%v); with the curve held as cose.Curve to %x", crvSp, b3, err, b2), rep)
+						}
+					}
 					d2 := decodeCase(c, "unmarshal-trimmed/"+class, "DKey", b2)
 					if d2.err == nil && !d2.paniced {
 						if pk, err := d2.key.PublicKey(); err != nil {
